@@ -47,7 +47,7 @@ def sh(cmd, timeout=1800, cwd=ROOT, env=None, capture=True):
     # developer knobs of the runners (scenario counts, parallelism, debug output) must not leak from the
     # caller's shell into a registered check; a check that needs one passes it through `env=` or sets
     # VERIF_DEV=1 (VERIF_C08_DRIVER is set by checks/c08.py itself)
-    if not e.get("VERIF_DEV"):
+    if e.get("VERIF_DEV", "0") in ("", "0"):
         for var in list(e):
             if re.match(r"^(E2E_|C\d\d_)", var) or var in ("VERIF_C08_ULIMIT_KB", "VERIF_C08_SMALL_STACK_KB"):
                 e.pop(var)
@@ -331,7 +331,7 @@ def run_check(spec, argv):
     try:
         seed = int(os.environ.get("VERIF_SEED", "1"))
     except ValueError:
-        seed = int.from_bytes(os.environ["VERIF_SEED"].encode()[:7], "big")
+        seed = int.from_bytes(hashlib.sha256(os.environ["VERIF_SEED"].encode()).digest()[:8], "big")
     seed %= 2 ** 62       # the runners parse a u64 and do arithmetic on it
     replay_full = False
     if replay:
@@ -340,6 +340,13 @@ def run_check(spec, argv):
             # a replay without concrete cases (broken proof / floor / census / build problem):
             # reproduce it by re-running the whole check with the recorded seed and tier
             seed, tier, replay, replay_full = int(rp0.get("seed", seed)) % 2 ** 62, rp0.get("tier", tier), None, True
+            # the per-property `post` functions look at sys.argv / the environment themselves
+            while "--replay" in sys.argv:
+                i_ = sys.argv.index("--replay")
+                del sys.argv[i_:i_ + 2]
+    # what the per-property code (checks/cxx.py: post, extra_coverage, spec inputs) reads
+    os.environ["VERIF_SEED"] = str(seed)
+    os.environ["VERIF_TIER"] = tier
     t0 = time.time()
     os.makedirs(WORK, exist_ok=True)
     problems = []     # (kind, detail) that break "shown to hold"
